@@ -325,6 +325,10 @@ pub struct Interp<'a> {
     policy_diverged: bool,
     /// (index, creation instant) of TTL entries the last sweep left behind although they were due
     overdue_survivors: BTreeSet<(u64, i64)>,
+    /// C04, independent of the detailed model: key -> (value, deadline or 0) as a plain map with
+    /// TTLs would hold it; only kept while the premise of C04 holds by construction (`smap_on`)
+    smap: BTreeMap<u64, (Val, i64)>,
+    smap_on: bool,
     /// when the metrics last restarted from zero (construction, clear())
     metrics_since: i64,
     metrics_bad_before_clear: bool,
@@ -407,6 +411,13 @@ impl<'a> Interp<'a> {
         if let Some((i, _)) = cfg.tick {
             feats.long_tick_period = i > NS;
         }
+        // ample room, buffer drained after every client operation, no validator vetoes, distinct
+        // indices: the premise of C04 holds whatever the history is
+        let smap_on = cfg.mode == Mode::Quiescent && cfg.max_cost >= 1 << 40 && cfg.validator == Validator::Always && cfg.buffer_size >= 8 && {
+            let mut idx: Vec<u64> = cfg.keys.iter().map(|k| k.0).collect();
+            idx.sort_unstable();
+            !idx.windows(2).any(|w| w[0] == w[1])
+        };
         Ok(Interp {
             cfg,
             sut,
@@ -451,6 +462,8 @@ impl<'a> Interp<'a> {
             lookups_uncertain: false,
             policy_diverged: false,
             overdue_survivors: BTreeSet::new(),
+            smap: BTreeMap::new(),
+            smap_on,
             metrics_since: now,
             metrics_bad_before_clear: false,
             interposed_then_clear: false,
@@ -690,9 +703,11 @@ impl<'a> Interp<'a> {
                 let a = rest.remove(p).clone();
                 let (ac, ec) = (ev_cost(&a), ev_cost(e));
                 if ac != ec {
+                    // (C05 speaks of the cost handed over for an *expired* entry only)
+                    let props: &'static [&'static str] = if what == "cleanup tick" { &["C16", "C05"] } else { &["C16"] };
                     self.fail(
                         "callback_cost",
-                        &["C16", "C05"],
+                        props,
                         format!("{}: callback {:?} reports cost {:?}, the charged cost is {:?}", what, a, ac, ec),
                     );
                 } else {
@@ -782,6 +797,37 @@ impl<'a> Interp<'a> {
             let stale = snap.entries.iter().find(|e| self.vals.get(&e.value).map(|i| i.dead && !i.in_place).unwrap_or(false)).map(|e| e.value);
             if let Some(v) = stale {
                 self.fail("stale_resident", &["C02"], format!("{}: quiescent, value {} is resident although a remove/clear issued after it was written has taken effect", what, v));
+            }
+            // C04, against a plain map with TTLs (kept only while ample room, a drained buffer and
+            // an always-accepting validator make the premise hold by construction): whatever an
+            // insert accepted and nothing removed, cleared or outlived is resident with that value
+            if self.smap_on && !self.any_err {
+                let now = self.m.now;
+                let mut bad = None;
+                for (k, (v, dl)) in self.smap.iter() {
+                    if *dl != 0 && *dl <= now {
+                        continue;
+                    }
+                    let (index, _) = self.key(*k);
+                    match snap.entries.iter().find(|e| e.index == index) {
+                        Some(e) if e.value == *v => {}
+                        other => {
+                            bad = Some(format!(
+                                "{}: quiescent and far below capacity, key {} was accepted with {} ({}) and neither removed nor cleared since, but the store holds {:?} under its index",
+                                what,
+                                k,
+                                v,
+                                if *dl == 0 { "no TTL".to_string() } else { format!("{}ns of TTL left", dl - now) },
+                                other.map(|e| e.value)
+                            ));
+                            break;
+                        }
+                    }
+                }
+                if let Some(m) = bad {
+                    self.fail("plain_map_entry_missing", &["C04"], m);
+                    self.smap_on = false;
+                }
             }
             // C06
             if !self.any_err {
@@ -1589,12 +1635,21 @@ impl<'a> Interp<'a> {
                 self.any_err = true;
                 self.feats.errs += 1;
                 self.note_events(&log);
+                self.smap_on = false;
                 self.desync(&format!("insert returned Err({})", e));
                 return;
             }
         };
         if ret {
             self.accept_ttl(k, v, false, ttl);
+        }
+        if self.smap_on && k < WIDE {
+            if ret {
+                let dl = if ttl == 0 || ttl == HUGE_TTL { 0 } else { now.saturating_add(ttl) };
+                self.smap.insert(k, (v, dl));
+            } else if !only_update {
+                self.smap.remove(&k);
+            }
         }
         // C09, model-free: insert_if_present never creates an entry. An expired entry that a sweep
         // has already had to reclaim (deadline + one bucket width before the last tick) is absent:
@@ -1744,6 +1799,10 @@ impl<'a> Interp<'a> {
         let r = self.sut.remove(k);
         let log = self.sut.take_log();
         self.tr(|| format!("remove(k{} -> idx {}) = {:?}", k, index, r));
+        self.smap.remove(&k);
+        if r.is_err() {
+            self.smap_on = false;
+        }
         let kills: Vec<Val> = self.written.get(&k).cloned().unwrap_or_default();
         if r.is_ok() {
             // the caller was told the remove went through: once the cache is quiescent nothing
@@ -1811,6 +1870,9 @@ impl<'a> Interp<'a> {
         if let Some(v) = got {
             self.check_returned("lookup", k, v);
             if let Some(w) = wv {
+                if let Some(e) = self.smap.get_mut(&k) {
+                    e.0 = w;
+                }
                 // in-place write: both values leave the C08 accounting
                 self.accept(k, w, true);
                 if let Some(i) = self.vals.get_mut(&v) {
@@ -1984,6 +2046,9 @@ impl<'a> Interp<'a> {
 
     fn op_update_max_cost(&mut self, m: i64) {
         self.sut.update_max_cost(m);
+        if m < 1 << 40 {
+            self.smap_on = false;
+        }
         self.tr(|| format!("update_max_cost({})", m));
         let got = self.sut.max_cost();
         if got != m {
@@ -1998,6 +2063,7 @@ impl<'a> Interp<'a> {
 
     fn op_clear(&mut self, pre: usize) {
         self.feats.clears += 1;
+        self.smap.clear();
         let had_pending = self.m.pending.len();
         if had_pending > 0 {
             self.feats.clears_with_pending += 1;
@@ -2458,6 +2524,7 @@ impl<'a> Interp<'a> {
         // run the outer op through the ordinary path (desynced: history oracles only)
         let then = then.clone();
         self.in_interposed_op = true;
+        self.smap_on = false;
         self.interposed_then_clear = matches!(then, Op::Clear { .. });
         self.interposed_before_check = before_check;
         self.interposed_then_lookup = matches!(then, Op::Get { .. } | Op::GetMut { .. } | Op::GetHold { .. } | Op::GetTtl { .. });
